@@ -17,9 +17,17 @@ EXCLUDE_ATTRS = {"_classifier", "_xg_regressor", "_gpmodel"}
 HISTORY = ["params_samp", "losses_samp", "series_samp", "batch_num_samp", "method_samp"]
 
 
+def nan_canonical(a):
+    """All NaNs are one value: sign bit and payload of a NaN carry no meaning (a text round trip loses them)."""
+    a = np.asarray(a)
+    if a.dtype.kind == "f" and a.size and np.isnan(a).any():
+        a = np.where(np.isnan(a), np.array(np.nan, dtype=a.dtype), a)
+    return a
+
+
 def arr(a):
     a = np.asarray(a)
-    c = np.ascontiguousarray(a)
+    c = np.ascontiguousarray(nan_canonical(a))
     return ("arr", str(a.dtype), tuple(a.shape), hashlib.sha1(c.tobytes()).hexdigest())
 
 
@@ -145,7 +153,7 @@ def history_equal(a, b):
         x, y = np.asarray(a[h]), np.asarray(b[h])
         if x.dtype != y.dtype or x.shape != y.shape:
             out.append(f"{h}: {x.dtype}{list(x.shape)} vs {y.dtype}{list(y.shape)}")
-        elif np.ascontiguousarray(x).tobytes() != np.ascontiguousarray(y).tobytes():
+        elif np.ascontiguousarray(nan_canonical(x)).tobytes() != np.ascontiguousarray(nan_canonical(y)).tobytes():
             if x.ndim >= 1 and len(x):
                 neq = ~((x == y) | ((x != x) & (y != y)))
                 rows = np.where(neq.reshape(len(x), -1).any(axis=1))[0]
